@@ -4,7 +4,10 @@ import (
 	"encoding/json"
 	"flag"
 	"fmt"
+	"io"
 	"os"
+	"strings"
+	"syscall"
 )
 
 func main() {
@@ -35,6 +38,16 @@ func main() {
 
 	if *oneCase != "" {
 		os.Setenv("VERIF_CHILD", "1")
+		if *oneCase == "-" { // long lines travel on stdin (one argument is limited to 128 KiB)
+			b, _ := io.ReadAll(os.Stdin)
+			*oneCase = strings.TrimSpace(string(b))
+		}
+		if os.Getenv("VERIF_RACE") == "" {
+			// a case that makes the code under test allocate without end dies here instead of taking the
+			// machine with it (the race detector needs its shadow address space: no limit there)
+			lim := syscall.Rlimit{Cur: 6 << 30, Max: 6 << 30}
+			syscall.Setrlimit(syscall.RLIMIT_AS, &lim)
+		}
 		p := registry[cfg.prop]
 		if p == nil {
 			os.Exit(2)
